@@ -33,6 +33,14 @@ def opt(x):
 _FALSY = {}
 
 
+def _zero_len(self):
+    return 0
+
+
+def _false_bool(self):
+    return False
+
+
 class W:
     """The implementation side: real gtirb objects addressed by small numbers."""
 
@@ -144,7 +152,13 @@ class W:
                     return base
                 key = (id(g), base.__name__)
                 if key not in _FALSY:
-                    _FALSY[key] = type("Falsy" + base.__name__, (base,), {"__len__": lambda self: 0} if len(_FALSY) % 2 else {"__bool__": lambda self: False})
+                    cls = type("Falsy" + base.__name__, (base,), {"__len__": _zero_len} if len(_FALSY) % 2 else {"__bool__": _false_bool})
+                    # (importable by name, so that instances can be pickled)
+                    nm = cls.__name__ if cls.__name__ not in globals() else "%s_%d" % (cls.__name__, len(_FALSY))
+                    cls.__name__ = cls.__qualname__ = nm
+                    cls.__module__ = __name__
+                    globals()[nm] = cls
+                    _FALSY[key] = cls
                 return _FALSY[key]
             if kind == "IR":
                 o = C(g.IR)(uuid=uu)
@@ -515,6 +529,28 @@ def twin_swaps(g, ir, cp, rng, report, cache=True):
             # (the twin goes home, so that the next site finds the copy complete)
             setattr(twin, back, twin_home)
     return n
+
+
+def copy_world(w, how, protocol=None):
+    """The whole world -- every object the executor knows, expressions included, sharing preserved -- copied by copy.deepcopy or
+    by a pickle round trip; returns a W over the copies (same node numbers), or None when the library / the objects do not support
+    that way of copying (e.g. locally defined classes cannot be pickled)."""
+    import copy
+    import pickle
+    bundle = (w.obj, w.exprs)
+    try:
+        if how == "deepcopy":
+            objs2, exprs2 = copy.deepcopy(bundle)
+        else:
+            objs2, exprs2 = pickle.loads(pickle.dumps(bundle, protocol=protocol or pickle.HIGHEST_PROTOCOL))
+    except Exception:  # noqa: BLE001
+        return None
+    w2 = W(w.g)
+    w2.obj, w2.kind, w2.names = objs2, dict(w.kind), dict(w.names)
+    w2.num = {id(o): n for n, o in objs2.items()}
+    w2.exprs = exprs2
+    w2.expr_num = {id(e): k for k, e in exprs2.items()}
+    return w2
 
 
 def oracle_cache(w, uuid_pool):
